@@ -485,6 +485,9 @@ def cause_of(cat, sig, printed="", text=""):
     vias = set(LOOKUP_VIA.findall(sig))
     if len(vias) == 1 and re.search(r"fn\([^;]*;[^)]*/(unq-using|unq-base|unq-injected|relqual)", sig):
         return "function-declarator-with-unrecognised-parameter-type-taken-as-initialiser,via=" + vias.pop()
+    if "unknown" in printed and re.search(r"ptr\(fn\((?!ptr\()[^;]*;[^)]*tmpl", sig):
+        # a function-pointer argument (non-pointer result) whose parameter list names another template-id
+        return "function-type-template-argument-with-inner-template-id-printed-as-unknown"
     if "unknown" in printed and "tmpl" in sig:
         # (also abstract declarators such as `int (*)[4]` as template arguments)
         return "template-argument-printed-as-unknown"
@@ -578,6 +581,7 @@ def _needed_support(support, m):
 def judge_tu(b, d, tu, res, case):
     os.makedirs(d, exist_ok=True)
     ev = Evaluator(b, d)
+    full_decls = copy.deepcopy(tu["decls"])
     st, info = ev.evaluate(tu)
     by = {x["id"]: x for x in tu["decls"]}
     if info["tool_problem"] and not any(category(s) for s in st.values()):
@@ -654,9 +658,16 @@ def judge_tu(b, d, tu, res, case):
                 # from a neighbouring line of a batch TU is not evidence)
                 st1, _i1 = ev.evaluate(copy.deepcopy(wtu))
                 if category(st1.get(m["id"])) != cat:
-                    res.count("unconfirmed_batch_artefacts_dropped")
-                    continue
-                st[i] = st1[m["id"]]
+                    if m["id"] != i or case.get("context_tu"):
+                        res.count("unconfirmed_batch_artefacts_dropped")
+                        continue
+                    # the unreduced declaration failed in the generated TU itself but not alone: the failure needs
+                    # other declarations of that TU (e.g. a twin type created earlier); the whole TU is the witness
+                    res.count("context_dependent_witnesses")
+                    wtu = {"env": tu["env"], "late_env": tu.get("late_env", []), "hosts": tu["hosts"],
+                           "decls": [x for x in full_decls]}
+                else:
+                    st[i] = st1[m["id"]]
             res.violation(key, witness=dg.render_decl(m), original=dg.render_decl(by[i]),
                           got=str(st[i][1:])[:300], expected="g++ accepts the declaration and the printed type is exactly "
                           "the declared one", tu=wtu)
